@@ -115,7 +115,7 @@ impl Property for C17 {
         C17
     }
     fn rule(&self) -> String {
-        format!("complete enumeration of all destination strings of up to 6 (quick) / 7 (thorough) tokens over {:?}, random destinations with other characters; source files modified before 1970, after 2106 and at the boundaries; all ordered pairs of 39 small valid paths and random sets of 2-5 destinations in one package; capability strings: all token strings up to 3 tokens of the C19 alphabet; every compressor with levels {:?}; every metadata/file-option setter with arbitrary strings incl. interior NUL, empty and 64 KiB; numeric setters (raw file mode as i32, FileMode variants written out with unmasked permission fields, epoch, scriptlet flags, changelog time, source date, verify flags) with arbitrary integers. Each case runs in a worker process (encoders may abort). Non-trivial = the argument is outside the documented/valid domain (must-be-error destination, rejected caps, out-of-range level, string with NUL or > 4 KiB); distinct by case hash.", DEST_TOKENS, LEVELS)
+        format!("complete enumeration of all destination strings of up to 6 (quick) / 7 (thorough) tokens over {:?}, random destinations with other characters; source files modified before 1970, after 2106 and at the boundaries; all ordered pairs of 39 small valid paths and random sets of 2-5 destinations in one package; capability strings: all token strings up to 3 tokens of the C19 alphabet and random texts with letters whose UTF-8 length changes under case mapping; every compressor with levels {:?}; every metadata/file-option setter with arbitrary strings incl. interior NUL, empty and 64 KiB; numeric setters (raw file mode as i32, FileMode variants written out with unmasked permission fields, epoch, scriptlet flags, changelog time, source date, verify flags) with arbitrary integers. Each case runs in a worker process (encoders may abort). Non-trivial = the argument is outside the documented/valid domain (must-be-error destination, rejected caps, out-of-range level, string with NUL or > 4 KiB); distinct by case hash.", DEST_TOKENS, LEVELS)
     }
     fn assumptions(&self) -> Vec<String> {
         vec![
@@ -156,6 +156,7 @@ impl Property for C17 {
                 exhaustive: true,
                 gen: Arc::new(|i| SRC_MTIMES.get(i as usize).map(|t| C17Case::SrcMtime(*t))),
             },
+            Phase::Random { name: "caps-unicode-case-mapping", cases: tier.pick(10_000, 200_000), strat: Arc::new(|| super::c19::unicode_caps().prop_map(C17Case::Caps).boxed()) },
             Phase::Enumerate { name: "caps-strings", total: ncaps, exhaustive: true, gen: Arc::new(|i| super::c19::token_string(i, 3).map(C17Case::Caps)) },
             Phase::Enumerate {
                 name: "levels",
